@@ -32,8 +32,22 @@ def render(shape):
     return fn
 
 
+def _validated():
+    """E-lemmas of the non-quick tiers that were discharged on this tree in a completed run (lemmas/validated_e.txt, one
+    name per line); only those are in the registered thorough tier, the rest is the 'extended' tier (DESIGN 10)"""
+    try:
+        return {l.strip() for l in open(os.path.join(os.path.dirname(os.path.abspath(__file__)), "validated_e.txt")) if l.strip()}
+    except OSError:
+        return set()
+
+
+VALIDATED = _validated()
+
+
 def mk(shape, extra_defs=None, suffix=""):
     props = list(shape.props)
+    if shape.tier != "quick":
+        shape.tier = "thorough" if ("%s.E.%s%s" % (props[0], shape.name(), suffix)) in VALIDATED else "extended"
     ghosts = ["g_opt", "g_kind", "g_num", "g_bkind", "g_bnum", "g_ikind", "g_inum", "g_dmag", "g_dneg", "g_imag", "g_ineg", "g_rc", "g_n"]
     return Lemma(name="%s.E.%s%s" % (props[0], shape.name(), suffix), src="elemma.c", entry="h_E", props=props, tier=shape.tier,
                  gen_h=shape.gen_h() + (extra_defs or ""), replace=["str_to_reg/str_to_reg__g"], unwindset=US, timeout=900, mem_gb=10,
